@@ -81,6 +81,18 @@ def assocGet {κ β : Type} [DecidableEq κ] : List (κ × β) → κ → Option
   | [], _ => none
   | (k', v) :: d, k => if k' = k then some v else assocGet d k
 
+/-- the node a row joins, if any: the row has a node name, exactly one edge, unconditional, coming from
+a row (`rep`) of the node registered under that name (`names`) -/
+def joinTarget {I N : Type} [DecidableEq I] [DecidableEq N] (names : List (N × I)) (rep : List (I × I)) :
+    Option N → List (Option I × Label) → Option I
+  | some nm, [(some fr, lab)] =>
+    if lab = blankLabel then
+      match assocGet names nm, assocGet rep fr with
+      | some first, some g => if g = first then some first else none
+      | _, _ => none
+    else none
+  | _, _ => none
+
 /-- One pass of `_parse_row` over the node rows: `names` = `node_name_to_node_map` (node name ↦
 first row of the node), `rep` = row id ↦ first row of its node (`row_id_to_nodegroup`, newest first).
 A row joins the node of its name iff it has exactly one edge, unconditional, coming from a row of
@@ -88,23 +100,12 @@ that node; otherwise it starts a node (and takes over the name). -/
 def groupStep {I N : Type} [DecidableEq I] [DecidableEq N]
     (acc : List (N × I) × List (I × I)) (r : I × Option N × List (Option I × Label)) :
     List (N × I) × List (I × I) :=
-  let (names, rep) := acc
-  let (id, name, cells) := r
-  let joined : Option I :=
-    match name, cells with
-    | some nm, [(some fr, lab)] =>
-      if lab = blankLabel then
-        match assocGet names nm, assocGet rep fr with
-        | some first, some g => if g = first then some first else none
-        | _, _ => none
-      else none
-    | _, _ => none
-  match joined with
-  | some first => (names, (id, first) :: rep)
+  match joinTarget acc.1 acc.2 r.2.1 r.2.2 with
+  | some first => (acc.1, (r.1, first) :: acc.2)
   | none =>
-    match name with
-    | some nm => ((nm, id) :: names, (id, id) :: rep)
-    | none => (names, (id, id) :: rep)
+    match r.2.1 with
+    | some nm => ((nm, r.1) :: acc.1, (r.1, r.1) :: acc.2)
+    | none => (acc.1, (r.1, r.1) :: acc.2)
 
 /-- row id ↦ first row of its node, for every node row of the sheet (in row order) -/
 def groupRows {I N : Type} [DecidableEq I] [DecidableEq N]
